@@ -110,6 +110,24 @@ type Env struct {
 	nmu             sync.Mutex
 	hrets           map[int]*hretCh
 	reused          map[string]*Msg // Opts "reuse": the one message object each sender keeps sending
+	dests           []destRec       // receive destinations and what they held when the call returned
+	ctxFor          map[int]context.Context // calls made from inside a handler ("N<j>") use that handler's context
+}
+
+// destRec: a destination message the caller passed to Invoke / RecvMsg, with its content at the moment the call
+// returned. The caller owns it from then on: at quiescence it must still hold that (finalize).
+type destRec struct {
+	rpc int
+	m   *Msg
+	at  string
+	op  string
+}
+
+func (e *Env) noteDest(rpc int, m *Msg, op string) {
+	if e.native {
+		return
+	}
+	e.dests = append(e.dests, destRec{rpc, m, string(m.Payload), op})
 }
 
 // finalize reads the call-option targets once everything is quiescent (reading
@@ -121,6 +139,12 @@ func (e *Env) finalize() {
 	}
 	e.nlock()
 	defer e.nunlock()
+	for _, d := range e.dests {
+		if now := string(d.m.Payload); now != d.at && d.rpc < len(e.rec.RPCs) {
+			rr := e.rec.RPCs[d.rpc]
+			rr.Monitor = append(rr.Monitor, fmt.Sprintf("late-write:the destination of %s held %q when the call returned and %q at the end: written after the return", d.op, d.at, now))
+		}
+	}
 	for i, c := range e.clis {
 		if c != nil && i < len(e.rec.RPCs) {
 			e.rec.RPCs[i].OptHeader = mdStr(c.hdr)
@@ -290,7 +314,7 @@ func (e *Env) unaryHandler(i int, ctx context.Context, dec func(interface{}) err
 		case op[0] == 'N':
 			// nested call: an in-process (or HTTP) unary call made from inside this handler with the handler's context
 			j, _ := strconv.Atoi(op[1:])
-			e.nestedInvoke(j, ctx, tn)
+			e.nestedCall(j, ctx, tn)
 		case strings.HasPrefix(op, "ret:"):
 			err := retErr(op, ctx)
 			if err != nil {
@@ -500,6 +524,10 @@ func (e *Env) handlerOps(i int, tn string, stream grpc.ServerStream, ops []strin
 				mc.Recv(*mjoin)
 			}
 			e.where("")
+		case op[0] == 'N':
+			// a call made from inside this handler with the handler's (stream's) context: a relay / fan-out
+			j, _ := strconv.Atoi(op[1:])
+			e.nestedCall(j, ctx, tn)
 		case strings.HasPrefix(op, "ret:"):
 			return retErr(op, ctx)
 		default:
@@ -507,6 +535,23 @@ func (e *Env) handlerOps(i int, tn string, stream grpc.ServerStream, ops []strin
 		}
 	}
 	return nil
+}
+
+// nestedCall makes call j from inside a handler with that handler's context: a unary call directly, a
+// stream by running its client script in the handler's task.
+func (e *Env) nestedCall(j int, ctx context.Context, tn string) {
+	if e.sc.RPCs[j].Kind == "unary" {
+		e.nestedInvoke(j, ctx, tn)
+		return
+	}
+	e.nlock()
+	if e.ctxFor == nil {
+		e.ctxFor = map[int]context.Context{}
+	}
+	e.ctxFor[j] = ctx
+	e.nunlock()
+	e.where("")
+	e.runRPC(j)
 }
 
 // nestedInvoke makes unary call j from inside a handler, with that handler's context.
@@ -542,6 +587,12 @@ func (e *Env) method(i int) string { return "/t.S/M" + strconv.Itoa(i) }
 
 // rpcCtx is the context of call i: the scenario's context, bounded by the call's own deadline if it has one.
 func (e *Env) rpcCtx(i int) context.Context {
+	e.nlock()
+	octx := e.ctxFor[i]
+	e.nunlock()
+	if octx != nil {
+		return octx
+	}
 	d := e.sc.RPCs[i].Timeout
 	if d == "" {
 		return e.ctx
@@ -611,6 +662,7 @@ func (e *Env) clientOps(i int, tn string, c *cli, ops []string) {
 			own.returned()
 			ownD.returned()
 			e.sent(req)
+			e.noteDest(i, &resp, "Invoke")
 			e.nlock()
 			rr.RecvRes = append(rr.RecvRes, es(err))
 			if err == nil {
@@ -713,6 +765,7 @@ func (e *Env) clientOps(i int, tn string, c *cli, ops []string) {
 					}
 					e.monitorPrefix(i, "cli")
 					e.received(&m)
+					e.noteDest(i, &m, "RecvMsg")
 					if !rpc.serverStreams() && op == "R*" {
 						// single-response method: one receive completes the call
 						stop = true
@@ -937,7 +990,7 @@ func (e *Env) body() {
 	}
 	for i := first + 1; i < len(e.sc.RPCs); i++ {
 		i := i
-		if len(e.sc.RPCs[i].Client) == 0 {
+		if len(e.sc.RPCs[i].Client) == 0 || e.sc.RPCs[i].Nested {
 			continue // driven from inside another RPC's handler ("N<i>")
 		}
 		e.goTask(fmt.Sprintf("c%d", i), func() { e.runRPC(i) })
